@@ -133,13 +133,15 @@ class Distribution(DistributionModel):
         return self.distribution.batch_shape
 
     def _sample_shape(self) -> torch.Size:
+        distribution = self.distribution
+        event_dim = len(distribution.event_shape)
         x_shape = self.x.tensor.shape
-        if len(x_shape) > len(self.batch_shape):
-            offset = 1 if len(self.batch_shape) == 0 else len(self.batch_shape)
-            return x_shape[:-offset]
-        else:
-            # the distribution is a likelihood term
-            return self.batch_shape[: -len(x_shape)]
+        # shape of log_prob: x (without its event dimensions) broadcast with the
+        # batch shape of the distribution parameters
+        shape = torch.broadcast_shapes(
+            x_shape[: len(x_shape) - event_dim], distribution.batch_shape
+        )
+        return torch.Size(shape if event_dim > 0 else shape[:-1])
 
     @property
     def distribution(self) -> torch.distributions.Distribution:
